@@ -89,6 +89,9 @@ def _owner_feature(tool, ow):
     if ow["o"] == "arg":
         a = tool["args"][ow["i"]]
         lab = "arguments:" + (a["kind"] if a["kind"] != "rec" else _binding_label(a["b"], shell))
+        ref = a["ref"] if a["kind"] == "expr" else a["b"]["vfref"] if a["kind"] == "rec" and a["b"]["vf"] == "ref" else ""
+        if ref:
+            lab += "->" + _type_label(next(x for x in tool["inputs"] if x["name"] == ref))
     else:
         f = next(x for x in tool["inputs"] if x["name"] == ow["of"])
         b = f["ib"] if ow["o"] == "item" else f["b"]
@@ -140,7 +143,8 @@ def _slot_uses(tool, key):
 
 
 # classes whose text means something to sh when it is not quoted
-INERT = {"plain", "dash", "nonascii", "refval", "int0", "intneg", "intmax", "int10"}
+# (non-ASCII text is inert for sh but shlex.quote wraps it in quotes, so double escaping shows on it: not inert)
+INERT = {"plain", "dash", "refval", "int0", "intneg", "intmax", "int10"}
 
 
 def _taint(tool, classes):
